@@ -26,7 +26,11 @@
 (*   "VT"            vertical tab / form feed: white space at the ends of  *)
 (*                   a line, a control byte inside it                      *)
 (*   "HASH" "BANG"   a comment starter with its text ("# ...", "! ...")    *)
-(*   "TITLE"         "! Title: ..." - a comment as far as C15 goes         *)
+(*   "TITLE"         "! Title: ..." - a comment as far as C15 goes, but the *)
+(*                   line that switches the parser's MODE (see Run)        *)
+(*   "COSM"          a line that starts with "#" and is not a plain         *)
+(*                   comment: "##sel", "#@#sel", "#?#..", "#$#..", "#%#.."  *)
+(*                   (cosmetic / scriptlet rules of the adblock syntax)    *)
 (*   "HTML"          "<html" / "<!doctype" in any letter case              *)
 (*   "BIN"           a control byte other than TAB, CR, LF                 *)
 (*   "XL"            rule text longer than any line buffer (> 64 KiB)      *)
@@ -57,33 +61,53 @@ Trim(s) == TrimR(TrimL(s))
 
 Has(s, S) == \E i \in DOMAIN s : s[i] \in S
 
-\* The class of a trimmed line.  first = nothing has been stored yet.
+(* Whether a COSM line is a comment or a rule the statement does not say.  *)
+(* That is a POLICY of the implementation, and because a parser may look   *)
+(* at such a line in two modes - before and after it has seen a title line *)
+(* - the policy has two components:                                        *)
+(*     pol = [pre |-> COSM is a rule before a title line was seen,         *)
+(*            post |-> ... after]                                          *)
+(* The stored form never contains a title line (it is a comment), so it is *)
+(* always re-parsed in mode "pre": the fixed point can only hold for       *)
+(* policies that do not depend on the mode.  Admissible policies are the   *)
+(* Uniform ones; RuleList.modes.cfg lets TLC show that the others break    *)
+(* NormalFormIsFixedPoint.                                                 *)
+Uniform(b)      == [pre |-> b, post |-> b]
+UniformPolicies == {Uniform(TRUE), Uniform(FALSE)}
+ModePolicies    == {[pre |-> FALSE, post |-> TRUE], [pre |-> TRUE, post |-> FALSE]}
+
+\* The class of a trimmed line.  first = nothing has been stored yet;
+\* cosmRule = what the policy says in the current mode.
 \*   blank, comment : dropped
 \*   html           : the content is an HTML page   } the refresh fails
 \*   binary         : the content is binary         }
 \*   rule           : stored
-Class(tl, first) ==
+Class(tl, first, cosmRule) ==
     IF tl = <<>> THEN "blank"
-    ELSE IF Head(tl) \in Comment THEN "comment"
+    ELSE IF Head(tl) \in Comment \/ (Head(tl) = "COSM" /\ ~cosmRule) THEN "comment"
     ELSE IF Head(tl) = "HTML" /\ first THEN "html"
     ELSE IF Has(tl, Control) THEN "binary"
     ELSE "rule"
 
-\* Reference parse.  rules = the trimmed rule lines in order (on failure:
-\* what had been accepted before the offending line - a writer that streams
-\* into the destination has already written exactly these).
-RECURSIVE Run(_, _, _)
-Run(ls, i, rules) ==
+\* Reference parse: a state machine over the lines with the state
+\*   rules  - the trimmed rule lines accepted so far (on failure: what had
+\*            been accepted before the offending line - a writer that streams
+\*            into the destination has already written exactly these)
+\*   titled - the mode: a title line has been seen
+RECURSIVE Run(_, _, _, _, _)
+Run(ls, i, rules, titled, pol) ==
     IF i > Len(ls) THEN [ok |-> TRUE, rules |-> rules, why |-> "ok"]
     ELSE CHOOSE r \in {IF c \in {"html", "binary"}
                        THEN [ok |-> FALSE, rules |-> rules, why |-> c]
-                       ELSE Run(ls, i + 1, IF c = "rule" THEN Append(rules, tl) ELSE rules)
-                       : tl \in {Trim(ls[i])}, c \in {Class(Trim(ls[i]), rules = <<>>)}} : TRUE
+                       ELSE Run(ls, i + 1, IF c = "rule" THEN Append(rules, tl) ELSE rules,
+                                titled \/ (tl # <<>> /\ Head(tl) = "TITLE"), pol)
+                       : tl \in {Trim(ls[i])},
+                         c \in {Class(Trim(ls[i]), rules = <<>>, IF titled THEN pol.post ELSE pol.pre)}} : TRUE
 \* (A value that is used more than once is bound by a quantifier over a
 \* singleton set instead of a LET: TLC evaluates bound variables once, LET
 \* definitions on every use - the difference is a factor of 30 on the texts
 \* of trace validation.)
-Parse(t) == CHOOSE p \in {Run(ls, 1, <<>>) : ls \in {Lines(t)}} : TRUE
+Parse(t, pol) == CHOOSE p \in {Run(ls, 1, <<>>, FALSE, pol) : ls \in {Lines(t)}} : TRUE
 
 \* Where the statement is silent the outcome is a SET:
 \*  - a control byte inside a comment ("binary content"? the line is dropped
@@ -94,17 +118,20 @@ Parse(t) == CHOOSE p \in {Run(ls, 1, <<>>) : ls \in {Lines(t)}} : TRUE
 Soft(t) ==
     \E ls \in {Lines(t)} : \E i \in DOMAIN ls : \E tl \in {Trim(ls[i])} :
         \/ Has(ls[i], {"XL"})
-        \/ tl # <<>> /\ Head(tl) \in Comment /\ Has(tl, {"BIN", "VT"})
+        \/ tl # <<>> /\ Head(tl) \in Comment \cup {"COSM"} /\ Has(tl, {"BIN", "VT"})
         \/ tl # <<>> /\ Head(tl) = "HTML"
 
 Fail      == [ok |-> FALSE, rules |-> <<>>]
 Ok(rules) == [ok |-> TRUE, rules |-> rules]
 
-\* The admissible outcomes of parsing t.
+\* The admissible outcomes of parsing t under policy pol.
 AdmissibleOf(p, t) ==
     IF ~p.ok THEN {Fail}
     ELSE {Ok(p.rules)} \cup (IF Soft(t) THEN {Fail} ELSE {})
-Admissible(t) == UNION {AdmissibleOf(p, t) : p \in {Parse(t)}}
+Admissible(t, pol) == UNION {AdmissibleOf(p, t) : p \in {Parse(t, pol)}}
+\* ... under any admissible policy, tagged with it (cosm = COSM lines are rules).
+AdmissibleTagged(t) ==
+    UNION {{[ok |-> o.ok, rules |-> o.rules, cosm |-> b] : o \in Admissible(t, Uniform(b))} : b \in BOOLEAN}
 
 ------------------------------------------------------------------------------
 \* The stored form, the rule count and the checksum of a sequence of rules.
@@ -126,9 +153,9 @@ Sum(rules)    == Flat(rules, <<>>)
 \* reference semantics - it never contains a first HTML line, a control byte
 \* or anything to trim) to the same rules, hence same Count, same Sum, and
 \* Normal(Normal(t)) = Normal(t).
-FixedPoint(t) ==
-    \A p \in {Parse(t)} :
-    p.ok => \A q \in {Parse(Normal(p.rules))} :
+FixedPoint(t, pol) ==
+    \A p \in {Parse(t, pol)} :
+    p.ok => \A q \in {Parse(Normal(p.rules), pol)} :
             /\ q.ok
             /\ q.rules = p.rules
             /\ Count(q.rules) = Count(p.rules)
@@ -140,6 +167,6 @@ Clean(rules) ==
     \A i \in DOMAIN rules :
         /\ rules[i] # <<>>
         /\ Trim(rules[i]) = rules[i]
-        /\ Head(rules[i]) \notin Comment
+        /\ Head(rules[i]) \notin Comment     \* (a COSM line may be a rule)
         /\ ~Has(rules[i], Control \cup {"LF"})
 =============================================================================
